@@ -58,6 +58,7 @@ var ptrKnownReaders = map[string]bool{
 	"ConstantTimeSelect": true, "ConstantTimeByteEq": true, "Errorf": true, "Sprintf": true, "New": true, "Size": true,
 	"Reset": false, "Mul64": true, "Add64": true, "Sub64": true, "Exp": true, "Cmp": true, "Sign": true, "panic": true,
 	"string": true, "Is": true, "Unwrap": true, "Compare": true, "BlockSize": true,
+	"HasPrefix": true, "HasSuffix": true, "Index": true, "IndexByte": true, "Contains": true, "Sum256": true, "NewReader": true,
 }
 
 // external functions that write through a given argument position (-1: the receiver)
